@@ -27,6 +27,26 @@ def beadsModel (o : Ops α) (p0 p1 p2 x : α) : α := o.exp (p0 * o.log x + p1) 
 /-- one residual of `err_fun`: `log(y + p2) - (p0*log(x) + p1)` -/
 def residual (o : Ops α) (p0 p1 p2 x y : α) : α := o.log (y + p2) - (p0 * o.log x + p1)
 
+/-! ### `selection_std`: default thresholds from the (rescaled) range limits and the selection predicate -/
+
+section Selection
+variable {β : Type} [Add β] [Sub β] [Mul β] [OfScientific β]
+
+/-- default lower threshold: `sf(r[0]) + 0.015*(sf(r[1]) - sf(r[0]))` (`s0`, `s1` are the rescaled range limits) -/
+def thresholdLow (s0 s1 : β) : β := s0 + 0.015 * (s1 - s0)
+
+/-- default upper threshold: `sf(r[0]) + 0.985*(sf(r[1]) - sf(r[0]))` -/
+def thresholdHigh (s0 s1 : β) : β := s0 + 0.985 * (s1 - s0)
+
+/-- left-hand sides of the two comparisons of the selection mask -/
+def reachLow (nLow mean std : β) : β := mean - nLow * std
+def reachHigh (nHigh mean std : β) : β := mean + nHigh * std
+
+/-- a population is selected iff it stays clear of both thresholds: `mean - n_low*std > low` and `mean + n_high*std < high` -/
+def Selected [LT β] (low high nLow nHigh mean std : β) : Prop := reachLow nLow mean std > low ∧ reachHigh nHigh mean std < high
+
+end Selection
+
 /-! ### population bookkeeping of `get_transform_fxn` (pure list logic) -/
 
 /-- group event indices by label: one population per distinct label (in order of first… the source uses
